@@ -252,7 +252,7 @@ def unit_c18_table():
                 return p
             cids = {"valid": w("cid.csv", "d,format,delimited\nf,id,,,,Integer\nf,name\nc,u,IsUnique,id\nc,few names,DistinctCount,name <= 2\n"), "rejected": w("bad.csv", "d,format,delimited\nf,id,,,,NoSuchType\n"), "missing": os.path.join(tmp, "nocid.csv")}
             os.mkdir(os.path.join(tmp, "dir"))
-            files = {"accepted": (w("a.csv", "1,x\n2,y\n"), 0), "field": (w("f.csv", "1,x\nq,y\n"), 1), "unique": (w("u.csv", "1,x\n1,y\n"), 1), "sibling": (w("s.csv", "1,z\n2,z\n"), 0),
+            files = {"accepted": (w("a.csv", "1,x\n2,y\n"), 0), "field": (w("f.csv", "1,x\nq,y\n"), 1), "unique": (w("u.csv", "1,x\n1,y\n"), 1), "sibling": (w("s.csv", "1,z\n2,z\n"), 0), "endcheck": (w("e.csv", "1,p\n2,q\n3,r\n"), 1),
                      "missing": (os.path.join(tmp, "nofile.csv"), 3), "directory": (os.path.join(tmp, "dir"), 3)}
             def cases():
                 for cid in cids:
@@ -280,7 +280,7 @@ def unit_c18_table():
                         want = max(want, code)
                 return None if rc == want else {"expected": "exit %r" % (want,), "observed": "exit %r" % (rc,)}
             r1 = sweep("C18/table/exit codes through main()", cases(), check, "bounded",
-                       "CID in {valid, rejected, missing} x every list of 0-3 data files over {accepted, rejected by a field, rejected by IsUnique, sharing keys with a sibling, missing, directory} in every order x --until in {absent, -1, 0, 1}",
+                       "CID in {valid, rejected, missing} x every list of 0-3 data files over {accepted, rejected by a field, rejected by IsUnique, rejected only by the end-of-data DistinctCount check, sharing keys with a sibling, missing, directory} in every order x --until in {absent, -1, 0, 1}",
                        describe=lambda c: {"cid": c[0], "files": c[1], "until": c[2]}, function="applications.main", unit="C18.table")
             def argcases():
                 yield ["cutplace"]; yield ["cutplace", "--nonsense"]; yield ["cutplace", "--until", "-2", cids["valid"]]; yield ["cutplace", "--until", "x", cids["valid"]]
